@@ -156,13 +156,13 @@ def gen_user(rng):
     if k == 'const':
         return ('user', 'const', rng.choice([1, 0, '', 'x', [0], [], None, True, False, 0.0, 1.5, {}]))
     if k == 'raise':
-        return ('user', 'raise', rng.randint(1, 3))
+        return ('user', 'raise', rng.randint(0, 3))
     if k == 'data_eq':
         return ('user', 'data_eq', gen_const(rng))
     if k == 'name_eq':
         return ('user', 'name_eq', rng.choice(KEYS + [0, 1, '$']))
     if k == 'eq_or_raise':
-        return ('user', 'eq_or_raise', rng.choice(SCALARS), rng.randint(1, 3))
+        return ('user', 'eq_or_raise', rng.choice(SCALARS), rng.randint(0, 3))
     return ('user', k)
 
 
